@@ -1,5 +1,5 @@
 """C11 -- ill-formed evaluations are rejected before anything runs."""
-from contracts import api, api_stages
+from contracts import api, api_stages, inspect_call
 from ._api_common import TRUSTED_API, owner, _AnyApiClause
 
 ID = "C11"
@@ -14,7 +14,7 @@ owns = owner("C11")
 
 
 def specs():
-    return [c() for c in api.SPECS]
+    return [c() for c in api.SPECS] + [c() for c in inspect_call.SPECS]
 
 
 def lemmas():
